@@ -60,6 +60,15 @@ func (f iterFam) source() string {
 	case "nilyield":
 		// the first yielded value is nil: it is still the value of this `next`
 		return fmt.Sprintf("<{|i| S(%d); yield (i if false) if i < %d; yield 777; recur(i + %d)}>", s, l, d)
+	case "localstate":
+		// progress kept in a body-local variable (seeded from the session's `seen0`), no recur:
+		// judged only by comparing fresh iterators with each other (what persists between two
+		// `next` calls without recur is not stated, that `new` starts afresh is)
+		return fmt.Sprintf("<{|limit| S(%d); seen0 := seen0 + %d; yield seen0 if seen0 <= limit + %d}>", s, d, l)
+	case "argvars":
+		// arguments reached only through `\\1`, `\\2`: a `new` that passes fewer of them leaves the
+		// rest unbound; judged only by comparing fresh iterators with each other
+		return fmt.Sprintf("<{S(%d); yield [\\1, \\2] if \\1 < %d; recur(\\1 + %d, \\2)}>", s, l, d)
 	case "twoparam":
 		// second parameter: nil unless given to new; carried along by recur
 		return fmt.Sprintf("<{|i, j| S(%d); yield [i, j] if i < %d; recur(i + %d, j)}>", s, l, d)
@@ -334,7 +343,9 @@ func (f iterFam) nextInt(st iterState, fault bool) (val int64, stop bool, errore
 	panic("unknown family")
 }
 
-func (f iterFam) finite() bool { return f.guard && f.recur && f.step >= 1 }
+func (f iterFam) finite() bool {
+	return f.guard && f.recur && f.step >= 1 && f.kind != "localstate" && f.kind != "argvars"
+}
 
 type C14Stats struct {
 	Histories int             `json:"histories"`
@@ -435,7 +446,7 @@ func (c *c14Check) Run(seed, run uint64, rec []uint32, st Stats, only *Viol) []V
 	}
 	s.Histories++
 	// 1..2 generator literals
-	kinds := []string{"guard", "noguard", "recurfirst", "twoyields", "norecur", "kw", "slotafterrecur", "implicit", "implicit2", "falsyyield", "twoparam", "nilyield", "gen", "gen", "gen", "gen", "gen", "gen"}
+	kinds := []string{"guard", "noguard", "recurfirst", "twoyields", "norecur", "kw", "slotafterrecur", "implicit", "implicit2", "falsyyield", "twoparam", "nilyield", "localstate", "argvars", "gen", "gen", "gen", "gen", "gen", "gen"}
 	nf := 1 + t.Intn(2)
 	fams := make([]iterFam, nf)
 	env := object.NewEnclosedEnv(c.it.Global)
@@ -448,6 +459,7 @@ func (c *c14Check) Run(seed, run uint64, rec []uint32, st Stats, only *Viol) []V
 		log = append(log, line)
 		return c.it.RunIn(prog, &harness.Callee{Plan: plan}, env)
 	}
+	eval("seen0 := 0", nil)
 	for i := range fams {
 		k := kinds[t.Intn(len(kinds))]
 		f := iterFam{kind: k, lim: int64(2 + t.Intn(6)), step: int64(1 + t.Intn(3)), slot: i + 1}
@@ -501,7 +513,7 @@ func (c *c14Check) Run(seed, run uint64, rec []uint32, st Stats, only *Viol) []V
 	nact := 4 + t.Intn(22)
 	for a := 0; a < nact && len(viols) == 0; a++ {
 		s.Actions++
-		op := t.Pick(3, 1, 8, 2, 1, 1, 1, 1)
+		op := t.Pick(3, 1, 8, 2, 1, 1, 1, 1, 3)
 		if len(nameList) == 0 {
 			op = 0
 		}
@@ -523,6 +535,9 @@ func (c *c14Check) Run(seed, run uint64, rec []uint32, st Stats, only *Viol) []V
 			if f.kind == "twoparam" && t.Chance(1, 2) {
 				stt.j = fmt.Sprint(40 + t.Intn(9))
 				line = fmt.Sprintf("%s := g%d.new(%d, %s)", name, fi, arg, stt.j)
+			}
+			if f.kind == "argvars" && t.Chance(1, 2) {
+				line = fmt.Sprintf("%s := g%d.new(%d, %d)", name, fi, arg, 40+t.Intn(9))
 			}
 			if f.hasK {
 				switch t.Intn(3) {
@@ -583,6 +598,12 @@ func (c *c14Check) Run(seed, run uint64, rec []uint32, st Stats, only *Viol) []V
 			r := eval(name+".next", plan)
 			s.Ops["next"]++
 			inter = append(inter, fmt.Sprintf("n%d", hi))
+			if f.kind == "localstate" || f.kind == "argvars" {
+				if r.Panic != "" {
+					fail("next", f.kind, "panic", "a value or an error", describe(r))
+				}
+				break
+			}
 			if f.kind == "gen" {
 				val, stop, errored, ni, nk, trace := genNext(f.body, h.i, h.k, faultIdx)
 				h.i, h.k = ni, nk
@@ -718,6 +739,20 @@ func (c *c14Check) Run(seed, run uint64, rec []uint32, st Stats, only *Viol) []V
 				fail(opn, f.kind, "evalcount", fmt.Sprintf("%d body evaluations", len(vals)+1), fmt.Sprintf("%d", n))
 			}
 			// handle state unchanged (checked by later next calls)
+		case 8: // fresh is fresh: `h.new(a)` behaves like `gN.new(a)`, whatever h has been through
+			src := pickName()
+			h := handles[names[src]]
+			f := fams[h.fam]
+			arg := int64(t.Intn(5))
+			probe := "[pf.try.next.A.S, pf.try.next.A.S, pf.try.next.A.S]"
+			r1 := eval(fmt.Sprintf("pf := %s.new(%d); %s", src, arg, probe), nil)
+			r2 := eval(fmt.Sprintf("pf := g%d.new(%d); %s", h.fam, arg, probe), nil)
+			s.Ops["fresh-vs-fresh"]++
+			inter = append(inter, "fresh")
+			d1, d2 := describe(r1)+" callee="+fmt.Sprint(traceIDs(r1)), describe(r2)+" callee="+fmt.Sprint(traceIDs(r2))
+			if d1 != d2 {
+				fail("fresh-vs-fresh", f.kind, "differs", "first three results of "+src+".new(a) = those of the literal's new(a): "+d2, d1)
+			}
 		case 6: // copy through _iter: independent state equal to the current one
 			src := pickName()
 			h := handles[names[src]]
@@ -777,7 +812,7 @@ func (c *c14Check) Evidence(st Stats, tier string) (map[string]interface{}, []st
 		cov["samples"] = []interface{}{"(none)"}
 	}
 	return cov, []string{
-		"bodies never rely on body-local assignments persisting across next without recur (unspecified)",
+		"what a body-local assignment or an unbound argument variable means for LATER next calls of the same iterator is not stated; bodies that depend on it (families localstate, argvars) are therefore judged only by `h.new(a)` against the literal's own `new(a)` (fresh is fresh), never against a model",
 		"A and chains are only applied to iterators of finite families (guarded yield, recur, positive step)",
 		"an alias (h1 := h0) names the same iterator and shares its progress by definition; independence is demanded of new and _iter",
 	}
